@@ -17,12 +17,14 @@
 (***************************************************************************)
 EXTENDS Integers, Sequences, FiniteSets, TLC, Json
 CONSTANTS TraceFile, Diagnose
-VARIABLES l, phase, skip
+VARIABLES l, phase, skip,
+          base      \* idle baseline of a churn scenario: [goroutines, fds, conns]
 
 Trace == ndJsonDeserialize(TraceFile)
 ToSet(s) == {s[i] : i \in 1..Len(s)}
 
-Init == l = 1 /\ phase = "init" /\ skip = FALSE
+NoBase == [goroutines |-> 0 - 1, fds |-> 0 - 1, conns |-> 0 - 1]
+Init == l = 1 /\ phase = "init" /\ skip = FALSE /\ base = NoBase
 
 ObsOK(e) ==
   CASE e.kind = "probe"    -> (phase = "running" => e.dialed /\ e.served)
@@ -30,21 +32,26 @@ ObsOK(e) ==
     [] e.kind = "registry" -> (phase = "running" /\ ~e.parked => ToSet(e.conns) = ToSet(e.served))
     [] e.kind = "client"   -> (phase = "stopped" => e.state \in {"eof", "refused", "closedbyclient"})
     [] e.kind = "final"    -> (phase = "stopped" => e.conns = 0 /\ e.goroutines = 0)
-    [] e.kind = "tls"      -> TRUE
+    [] e.kind = "baseline" -> TRUE
+    \* C19: after a batch of connections that ended in every possible way, the server is back at its idle baseline
+    [] e.kind = "churn"    -> /\ base # NoBase
+                              /\ e.goroutines = base.goroutines /\ e.fds = base.fds /\ e.conns = base.conns
+                              /\ e.not_closed = 0                    \* every client saw its socket closed by the server where it must
     [] OTHER -> FALSE
 
 Handle(e) ==
-  CASE e.ev = "scenario" -> phase' = "init" /\ skip' = FALSE
+  CASE e.ev = "scenario" -> phase' = "init" /\ skip' = FALSE /\ base' = NoBase
     [] e.ev = "call" -> /\ phase' = IF e.call = "Start" THEN "starting" ELSE "stopping"
                         /\ (e.call = "Start" => phase \in {"init", "stopped"})
                         /\ (e.call \in {"Stop", "Restart"} => phase \in {"running"})
-                        /\ UNCHANGED skip
+                        /\ UNCHANGED <<skip, base>>
     [] e.ev = "ret"  -> /\ e.err = ""
                         /\ phase' = IF e.call = "Stop" THEN "stopped" ELSE "running"
-                        /\ UNCHANGED skip
-    [] e.ev = "obs"  -> (skip \/ ObsOK(e)) /\ UNCHANGED <<phase, skip>>
-    [] e.ev = "infeasible" -> skip' = TRUE /\ UNCHANGED phase
-    [] e.ev \in {"point", "release", "dial", "clientclose"} -> UNCHANGED <<phase, skip>>
+                        /\ UNCHANGED <<skip, base>>
+    [] e.ev = "obs"  -> /\ (skip \/ ObsOK(e)) /\ UNCHANGED <<phase, skip>>
+                        /\ base' = IF e.kind = "baseline" THEN [goroutines |-> e.goroutines, fds |-> e.fds, conns |-> e.conns] ELSE base
+    [] e.ev = "infeasible" -> skip' = TRUE /\ UNCHANGED <<phase, base>>
+    [] e.ev \in {"point", "release", "dial", "clientclose"} -> UNCHANGED <<phase, skip, base>>
     [] OTHER -> FALSE
 
 Step == /\ l <= Len(Trace) /\ Trace[l].ev # "end"
@@ -52,10 +59,10 @@ Step == /\ l <= Len(Trace) /\ Trace[l].ev # "end"
         /\ l' = l + 1
 End == /\ l <= Len(Trace) /\ Trace[l].ev = "end"
        /\ PrintT(<<"OK", Trace[l].sc>>)
-       /\ l' = l + 1 /\ phase' = "init" /\ skip' = FALSE
+       /\ l' = l + 1 /\ phase' = "init" /\ skip' = FALSE /\ base' = NoBase
 GiveUp == /\ ~Diagnose /\ l <= Len(Trace)
-          /\ l' = Trace[l].end + 1 /\ phase' = "init" /\ skip' = FALSE
+          /\ l' = Trace[l].end + 1 /\ phase' = "init" /\ skip' = FALSE /\ base' = NoBase
 DiagAt == Diagnose => PrintT(<<"AT", l>>)
 Next == Step \/ End \/ GiveUp
-Spec == Init /\ [][Next]_<<l, phase, skip>>
+Spec == Init /\ [][Next]_<<l, phase, skip, base>>
 =============================================================================
